@@ -33,7 +33,9 @@ ASSUMPTIONS = [
 ]
 PROBES = ["invivo_notifications", "invivo_handlers_invoked", "invivo_multi_handler_notifications", "unprocessed_set_out", "lang_filtered", "any_lang_match", "blocked", "data_chained", "unprocessed_kept_data", "unknown_event",
           "flags_multi", "str_lang", "set_lang", "substring_lang", "register_list", "plugin_loaded", "prod_default_table",
-          "no_handler_matched"]
+          "no_handler_matched", "listed_handlers", "debug_mode"]
+# the same check again, smaller, in interpreters started with assertions stripped (python -O / PYTHONOPTIMIZE=1)
+ENV_VARIANTS = [{"name": "python-O", "env": {"PYTHONOPTIMIZE": "1"}, "runs": {'quick': 3000, 'thorough': 30000}}]
 TIERS = {
     "quick": {"runs": 30000, "budget_s": 180, "chunk": 500, "selftest": 200, "per_run_timeout": 300},
     "thorough": {"runs": 0, "budget_s": 900, "chunk": 2000, "selftest": 1000, "per_run_timeout": 300},
@@ -102,6 +104,8 @@ def gen_knobs(rng, tier):
         "p_late_register": rng.choice([0.0, 0.3]),
         "p_unknown_event": rng.choice([0.0, 0.1]),
         "event_picks": [rng.randrange(64) for _ in range(3)],
+        "debug": rng.random() < 0.2,          # production --debug: the manager prints what it dispatches
+        "p_list": rng.choice([0.0, 0.0, 0.2]),
     }
 
 
@@ -165,6 +169,8 @@ def generate(rng, k):
             ops.append({"op": "register", "event": e, "h": hid, "langs": _gen_langs(rng, k)})
             regs[e].append(hid)
             hid += 1
+        if rng.random() < k.get("p_list", 0):
+            ops.append({"op": "list"})        # the public diagnostic listing must not disturb dispatch
         if rng.random() < k["p_unknown_event"]:
             ops.append({"op": "notify", "event": f"U{rng.randrange(len(UNKNOWN_EVENTS))}", "lang": rng.choice(LANGS),
                         "returns": {}, "sets_out": {}})
@@ -243,7 +249,7 @@ def execute(trace):
     def hit(name, n=1):
         probes[name] = probes.get(name, 0) + n
 
-    options = SimpleNamespace(event_handlers=[], debug=False)
+    options = SimpleNamespace(event_handlers=[], debug=bool(k.get("debug")))
     invoked = []          # (hid, in_data seen) for the current notify
     script = {"returns": {}, "sets_out": {}, "n": 0}
     handlers = {}
@@ -261,6 +267,8 @@ def execute(trace):
     for op in trace["ops"]:
         if op["op"] == "register":
             all_h.add(op["h"])
+        elif op["op"] == "list":
+            continue
         elif op["op"] == "register_list":
             all_h.update(i["h"] for i in op["items"])
     for h in all_h:
@@ -291,6 +299,8 @@ def execute(trace):
                         pass
                 usable = list(kinds)
                 for op in ops[:first_notify]:
+                    if op["op"] == "list":
+                        continue
                     if op["op"] == "register":
                         plugin_ops.append(dict(op, _event=resolve(op["event"], usable)))
                     else:
@@ -327,6 +337,8 @@ def execute(trace):
 
     model = {}     # real event kind -> list of (hid, langs)
     n_notify = 0
+    if k.get("debug"):
+        hit("debug_mode")
 
     for step, op in enumerate(ops):
         if violation:
@@ -334,6 +346,11 @@ def execute(trace):
         kind = op["op"]
         try:
             with contextlib.redirect_stdout(io.StringIO()), contextlib.redirect_stderr(io.StringIO()):
+                if kind == "list":
+                    em.list_installed_handlers()
+                    hit("listed_handlers")
+                    log.append(["list"])
+                    continue
                 if kind in ("register", "register_list"):
                     items = [op] if kind == "register" else op["items"]
                     real_items = []
@@ -462,15 +479,18 @@ def execute(trace):
 def signature(trace, violation):
     if violation["cls"].startswith("invivo:"):
         return f"{violation['cls']}:event{violation['detail'].get('event')}"
-    nr = sum(1 if op["op"] == "register" else len(op["items"]) for op in trace["ops"] if op["op"] != "notify")
+    nr = sum(1 if op["op"] == "register" else len(op["items"]) for op in trace["ops"] if op["op"] in ("register", "register_list"))
     nn = sum(1 for op in trace["ops"] if op["op"] == "notify")
-    return f"{violation['cls']}:{nr}reg:{nn}notify"
+    extra = ("+list" if any(op["op"] == "list" for op in trace["ops"]) else "") + ("+debug" if trace["knobs"].get("debug") else "")
+    return f"{violation['cls']}:{nr}reg:{nn}notify{extra}"
 
 
 def simplify(trace):
     ops = trace["ops"]
     if trace["knobs"]["population"] == "invivo":
         return
+    if trace["knobs"].get("debug"):
+        yield dict(trace, knobs=dict(trace["knobs"], debug=False))
     # population: prefer 'bare'
     if trace["knobs"]["population"] != "bare":
         yield dict(trace, knobs=dict(trace["knobs"], population="bare"))
